@@ -863,19 +863,10 @@ def lit_load(ctx):
     for bad in ('std::', '.to<', 'primitive(', '::', '.source'):
         if bad in re.sub(r'//[^\n]*', '', text):
             raise Undecided('C extraction of primitive::load left C++ text behind: %s' % bad)
-    ex.rules.append(('recursion unrolled textually: instance 1 = the literal, instance 2 = its exponent; a third level is a stub '
-                     'that fails (a well-formed exponent contains no exponent)', 2))
-    proto = 'static primitive primitive_load_exponent(const char **c_, const bool includeSign);\n'
-    stub = ('static primitive primitive_load_exponent2(const char **c_, const bool includeSign) {\n'
-            '  __CPROVER_assert(0, "literal: the exponent of a well-formed literal contains no further exponent (recursion depth 2 is not reached)");\n'
-            '  __CPROVER_assume(0);\n  return primitive_ctor_none();\n}\n')
+    ex.rules.append(('the recursive call on the exponent is replaced by its contract (contracts/C14/literal_harness.h: '
+                     'c14_exponent_spec), which group literal/exponent-contract proves of this same text', 1))
     inst1 = text.replace('@LOAD@', 'primitive_load').replace('@LOAD_REC@', 'primitive_load_exponent')
-    inst2 = text.replace('@LOAD@', 'primitive_load_exponent').replace('@LOAD_REC@', 'primitive_load_exponent2')
-    # integer-literal groups: an integer literal has no exponent, so the exponent instance itself is the failing stub
-    stub1 = stub.replace('primitive_load_exponent2', 'primitive_load_exponent').replace(
-        'the exponent of a well-formed literal contains no further exponent (recursion depth 2 is not reached)',
-        'no exponent is parsed for an integer or boolean literal (the recursive call is not reached)')
-    out += ['#ifdef C14_LIT_NO_EXPONENT\n' + stub1 + '#else\n' + proto + stub, inst2, '#endif', inst1]
+    out.append(inst1)
     exs.append(ex)
     return '\n\n'.join(t.strip() for t in out), exs
 
@@ -923,11 +914,16 @@ def literal_groups(ctx, unit):
         '/* ---- extracted from %s ---- */' % PRIM_CPP, load_c,
         '#define C14_LITERAL_HARNESS\n#include "C14/literal_harness.h"\n'])
     groups = []
-    for sh in lit_shapes(ctx.tier):
+    shapes = lit_shapes(ctx.tier)
+    # longest exponent text (sign, digits, f) inside the longest literal that can have one: digit e <exponent>
+    emax = max(sh['nmax'] for sh in shapes if not sh['integer']) - 2
+    for sh in shapes:
         n = sh['nmax']
         defines = ['C14_LIT_MAX=%d' % n, 'C14_SHAPE_SETUP=%s' % sh['setup'], 'C14_SHAPE_FILTER=%s' % sh['filt']]
         if sh['integer']:
             defines.append('C14_LIT_NO_EXPONENT')
+        else:
+            defines.append('C14_EXP_MAX=%d' % emax)
         if sh['tail']:
             defines.append('C14_LIT_TAIL')
         g = Group(
@@ -944,12 +940,25 @@ def literal_groups(ctx, unit):
                          'value obligation is therefore "the float nearest to that double", not "the float nearest to the text"',
                          'std::string(first, count) [+ "suffix"] . c_str() is modelled by a NUL-terminated copy (contracts/C14/literal_harness.h)',
                          'strlen/strncmp: CBMC library models'],
-            note='loops unwound to the buffer length (unwinding assertions on); recursion of load unrolled textually '
-                 '(literal, exponent; integer shapes: the exponent instance is a stub that fails when reached); pointer/bounds '
-                 'checks only in literal/any-text (cursor safety of load is C12)',
+            note='loops unwound to the buffer length (unwinding assertions on); the recursive call of load on the exponent is '
+                 'replaced by its contract (integer shapes: by a stub that fails when reached); pointer/bounds '
+                 'checks only in literal/any-text and literal/exponent-contract (cursor safety of load is C12)',
             replay=None if os.environ.get('C14_NO_REPLAY') else replay_C14.replay_literal)
         g.extra_cbmc = ['--sat-solver', 'cadical']
         groups.append(g)
+    common = groups[0]
+    g = Group(
+        name='literal/exponent-contract', sources={'literal.c': body}, entry='h_exponent', lang='c',
+        defines=['C14_LIT_MAX=%d' % (emax + 2), 'C14_EXP_MAX=%d' % emax, 'C14_SHAPE_SETUP=', 'C14_SHAPE_FILTER=1', 'C14_LIT_NO_EXPONENT'],
+        unwind=emax + 8, checks=ARITH_CHECKS + PTR_CHECKS, min_obligations=4, timeout=common.timeout,
+        functions=e3 + e2 + e1 + unit.common_ex, canary='CANARY', canary_label='canary', strength='bounded',
+        bound='every exponent text `sign? digits (f|F)?` of at most %d characters, followed by any character that ends '
+              'the token, and the end of the buffer' % emax,
+        param='exponent length <= %d' % emax, assumptions=common.assumptions,
+        note='proves the contract by which literal/floating and literal/any-text replace the recursive call of primitive::load',
+        replay=None)
+    g.extra_cbmc = ['--sat-solver', 'cadical']
+    groups.append(g)
     return groups
 
 
